@@ -51,3 +51,22 @@ pub fn info_prev(i: &DefaultInfo<f64>) -> (f64, f64, f64, f64, f64, f64) {
         i.prev_gap_rel,
     )
 }
+
+// --- synthetic states for the decision functions -------------------------------------------
+/// a residuals object carrying only the two scaled inner products the decision functions read
+pub fn residuals_with_dots(dot_qx: f64, dot_bz: f64) -> DefaultResiduals<f64> {
+    let mut r = DefaultResiduals::<f64>::new(0, 0);
+    r.dot_qx = dot_qx;
+    r.dot_bz = dot_bz;
+    r
+}
+/// sets the crate-private previous-iterate figures of an info record owned by the harness:
+/// (cost_primal, cost_dual, res_primal, res_dual, gap_abs, gap_rel)
+pub fn info_set_prev(i: &mut DefaultInfo<f64>, p: (f64, f64, f64, f64, f64, f64)) {
+    i.prev_cost_primal = p.0;
+    i.prev_cost_dual = p.1;
+    i.prev_res_primal = p.2;
+    i.prev_res_dual = p.3;
+    i.prev_gap_abs = p.4;
+    i.prev_gap_rel = p.5;
+}
